@@ -141,6 +141,28 @@ pub fn max_visits(orders: &[OrderSpec]) -> u64 {
     v
 }
 
+/// Total quantity of `o` that matching can ever execute under the rule: the displayed part plus
+/// whatever the rule eventually moves from hidden to displayed.
+pub fn matchable(o: &OrderSpec) -> u128 {
+    let d = o.vis as u128;
+    let h = o.hid as u128;
+    match o.kind {
+        // an iceberg replenishes by min(hidden, exhausted tranche): nothing if it displays 0
+        Kind::Iceberg => {
+            if o.vis > 0 {
+                d + h
+            } else {
+                0
+            }
+        }
+        Kind::Reserve => {
+            let amount = if o.p2_some { o.p2 } else { DEFAULT_REPLENISH };
+            if o.auto && amount > 0 { d + h } else { d }
+        }
+        _ => d,
+    }
+}
+
 pub fn specs(listing: &[Order]) -> Vec<OrderSpec> {
     listing.iter().map(OrderSpec::of).collect()
 }
